@@ -3,4 +3,5 @@ import Cgm.E2E.C13
 import Cgm.E2E.C13b
 import Cgm.E2E.C13c
 import Cgm.E2E.C13d
+import Cgm.E2E.C13g
 #audit_namespace Cg.E2E.C13
